@@ -243,6 +243,7 @@ type Contract struct {
 	Flags    map[string]bool
 	Assumed  map[string]bool   // clause ids that are environment assumptions (not proved by implementations)
 	Derived  map[string]string // clause id -> lemma by which it follows from the other clauses
+	Assumes  []Clause          // preconditions assumed for the body, not checked at call sites
 	Uses     []string          // lemmas (proved separately) whose statements are assumed in this function's proof
 	Variant  string            // "" or the name of the contract variant this contract belongs to (e.g. "intf")
 	File     string
@@ -653,6 +654,10 @@ func (p *parser) parseContract() *Contract {
 		switch {
 		case p.accept("requires"):
 			c.Requires = append(c.Requires, p.parseClause(t, fmt.Sprintf("req%d", len(c.Requires)+1)))
+		case p.accept("assumes"):
+			// assumes id: e — a precondition the body is verified under but that callers are NOT asked
+			// to establish (an environment assumption, listed in the evidence of every run using it)
+			c.Assumes = append(c.Assumes, p.parseClause(t, fmt.Sprintf("asm%d", len(c.Assumes)+1)))
 		case p.accept("ensures"):
 			c.Ensures = append(c.Ensures, p.parseClause(t, fmt.Sprintf("ens%d", len(c.Ensures)+1)))
 		case p.accept("modifies"):
